@@ -434,6 +434,29 @@ class Translator:
         if op == 'freeze': return A(0)
         raise Unsupported('op ' + op + ': ' + vstr(v))
 
+    def leaf_width(self, v):
+        """size in bytes of the scalar leaves of the object an i8* value points into, when it is visibly a bitcast of a typed pointer
+        to an aggregate whose leaves all have the same size; 1 otherwise"""
+        k = GetValueKind(v)
+        if k == VK['Instruction'] and OPC[GetInstructionOpcode(v)] == 'bitcast' or k == VK['ConstantExpr'] and OPC[GetConstOpcode(v)] == 'bitcast':
+            t = TypeOf(GetOperand(v, 0))
+            if GetTypeKind(t) != TK['Pointer']: return 1
+            sizes = set()
+            def walk(t):
+                tk = GetTypeKind(t)
+                if tk == TK['Struct']:
+                    if IsOpaqueStruct(t) or IsPackedStruct(t): sizes.add(1); return
+                    n = CountStructElementTypes(t); arr = (P * n)(); GetStructElementTypes(t, arr)
+                    for i in range(n): walk(arr[i])
+                elif tk == TK['Array']: walk(GetElementType(t))
+                elif tk == TK['Integer']: sizes.add(max(1, GetIntTypeWidth(t) // 8))
+                elif tk == TK['Float']: sizes.add(4)
+                elif tk in (TK['Double'], TK['Pointer']): sizes.add(8)
+                else: sizes.add(1)
+            walk(GetElementType(t))
+            if len(sizes) == 1: return sizes.pop()
+        return 1
+
     # ---------------- functions
     def translate_function(self, f):
         name = self.fname(f)
@@ -587,9 +610,21 @@ class Translator:
             base = cname
             if base.startswith('llvm.lifetime') or base.startswith('llvm.assume') or base.startswith('llvm.dbg') or base.startswith('llvm.experimental.noalias') or base.startswith('llvm.invariant'):
                 stmt = ';'
-            elif base.startswith('llvm.memcpy'): stmt = '__verif_memcpy((u8*)%s, (u8*)%s, %s);' % (A[0], A[1], A[2])
-            elif base.startswith('llvm.memmove'): stmt = '__verif_memmove((u8*)%s, (u8*)%s, %s);' % (A[0], A[1], A[2])
-            elif base.startswith('llvm.memset'): stmt = '__verif_memset((u8*)%s, %s, %s);' % (A[0], A[1], A[2])
+            elif base.startswith('llvm.memcpy') or base.startswith('llvm.memmove') or base.startswith('llvm.memset'):
+                # constant-length operations on objects whose scalar leaves all have one size are done word-wise with that size
+                # (same bytes written; cbmc then sees element-typed accesses instead of 4-8x as many byte updates)
+                kind = base.split('.')[1]
+                w = 1
+                if GetValueKind(args[2]) == VK['ConstantInt']:
+                    n = ConstIntGetZExtValue(args[2])
+                    ws = [self.leaf_width(args[0])] + ([self.leaf_width(args[1])] if kind != 'memset' else [])
+                    if all(x == ws[0] for x in ws) and ws[0] in (2, 4, 8) and n % ws[0] == 0 and n >= ws[0]: w = ws[0]
+                if w == 1:
+                    stmt = '__verif_%s((u8*)%s, %s%s, %s);' % (kind, A[0], '' if kind == 'memset' else '(u8*)', A[1], A[2])
+                elif kind == 'memset':
+                    stmt = '__verif_memset%d((u%d*)%s, %s, %dULL);' % (w * 8, w * 8, A[0], A[1], n // w)
+                else:
+                    stmt = '__verif_%s%d((u%d*)%s, (u%d*)%s, %dULL);' % (kind, w * 8, w * 8, A[0], w * 8, A[1], n // w)
             elif base == 'llvm.eh.typeid.for': stmt = '%s%d;' % (lhs, self.tinfo_id(args[0]))
             elif base.startswith('llvm.expect'): stmt = '%s%s;' % (lhs, A[0])
             elif base == 'llvm.trap': stmt = '__verif_abort(3);'
@@ -700,6 +735,7 @@ class Translator:
         return '\n'.join(lines)
 
     def run(self, inert=()):
+        for n in sorted(self.STD_BASES): self.typeinfo_ids.setdefault(n, len(self.typeinfo_ids) + 1)   # fixed ids for the std:: exceptions (rt models throw them)
         f = GetFirstFunction(self.mod)
         protos = []; bodies = []; hdr = []
         self.defined_funcs = []; self.ext_funcs = {}; self.inert_used = []
@@ -752,7 +788,8 @@ class Translator:
         for g, ct in gl:
             ginit.append('%s %s = %s;' % (ct, self.gname(g), self.init(GetInitializer(g))))
         self.flush_structs()
-        c = '\n'.join(['#include "verif_rt.h"'] + self.typedefs + gdecl + protos + ginit + [self.exc_table()] + bodies)
+        tids = ['int __verif_tid_%s = %d;' % (cid(n), self.typeinfo_ids[n]) for n in sorted(self.STD_BASES)]
+        c = '\n'.join(['#include "verif_rt.h"'] + self.typedefs + gdecl + protos + ginit + tids + [self.exc_table()] + bodies)
         h = '\n'.join(['/* generated by ir2c.py: prototypes of the translated wrappers */', '#include "verif_rt.h"'] +
                       [t for t in self.typedefs if self._hdr_needs(t, hdr)] + hdr) + '\n'
         return c, h
